@@ -29,6 +29,9 @@ typedef struct {
 
 static uint32_t g_place;
 static uint64_t g_reps;
+static uint32_t g_samples;   /* remaining X| sample lines for the current format */
+
+static int sample(vp_ctx_t* c) { if (!g_samples) return 0; g_samples--; c->outn = 0; o_s(c, "X|"); return 1; }
 
 static void fm_new(fm_t* m, vp_ctx_t* c)
 {
@@ -147,7 +150,11 @@ static uint64_t read_one(fm_t* m, const vp_field_t* fld, int path, const char* b
     vp_tr_u64(m->c, got);
     if (got != exp) viol_value(m, "read", fld->name, path_names[path], "value-mismatch", n, exp, got, 0, 0);
     fm_check(m, "read", fld->name, path_names[path], n, 0, 0);
-    (void)bcname;
+    if (got && g_samples && bcname[0] == 'r' && sample(m->c)) {
+        vp_ctx_t* c = m->c;
+        o_s(c, "{\"op\":\"read\",\"format\":\""); o_s(c, m->f->id); o_s(c, "\",\"field\":\""); o_s(c, fld->name); o_s(c, "\",\"path\":\""); o_s(c, path_names[path]);
+        o_s(c, "\",\"buffer\":\""); o_hex(c, PDU(m), n); o_s(c, "\",\"returned\":\""); o_x(c, got); o_s(c, "\",\"model\":\""); o_x(c, exp); o_s(c, "\"}"); o_end(c);
+    }
     return got;
 }
 
@@ -197,6 +204,11 @@ static void write_one(fm_t* m, const vp_field_t* fld, int path, uint64_t v, uint
     vp_tr_bytes(m->c, PDU(m), n);
     if (old != mv) (*changed)++;
     fm_check(m, "write", fld->name, path_names[path], n, v, 1);
+    if (old != mv && v > mv && g_samples && sample(m->c)) {
+        vp_ctx_t* c = m->c;
+        o_s(c, "{\"op\":\"write\",\"format\":\""); o_s(c, m->f->id); o_s(c, "\",\"field\":\""); o_s(c, fld->name); o_s(c, "\",\"path\":\""); o_s(c, path_names[path]);
+        o_s(c, "\",\"before\":\""); o_hex(c, m->before, n); o_s(c, "\",\"value\":\""); o_x(c, v); o_s(c, "\",\"after\":\""); o_hex(c, PDU(m), n); o_s(c, "\"}"); o_end(c);
+    }
     /* read back through the matching reader */
     if (path == P_GENERIC || fld->dget) {
         uint64_t got = do_get(m, fld, path);
@@ -392,6 +404,10 @@ static void mode_extent(fm_t* m, uint64_t* nontrivial)
                         int sig = vp_try(ext_thunk, &e);
                         c->evals++;
                         (*nontrivial) += (rep == 0 && fld->width > 0);
+                        if (rep == 0 && op == 1 && fi + 1 == f->nfields && g_samples && sample(c)) {
+                            o_s(c, "{\"op\":\"extent\",\"format\":\""); o_s(c, f->id); o_s(c, "\",\"placement\":\""); o_s(c, pname); o_s(c, "\",\"buffer_len\":"); o_u(c, n);
+                            o_s(c, ",\"field\":\""); o_s(c, fld->name); o_s(c, "\",\"last_bit\":"); o_u(c, fld->pos + fld->width); o_s(c, ",\"signal\":"); o_u(c, (uint64_t)sig); o_s(c, "}"); o_end(c);
+                        }
                         if (sig && vp_viol(c, "extent", f->id, fld->name, path_names[path], op ? "set-outside-header" : "get-outside-header", 0)) {
                             o_s(c, "{\"signal\":"); o_u(c, (uint64_t)sig); o_s(c, ",\"placement\":\""); o_s(c, pname);
                             o_s(c, "\",\"buffer_len\":"); o_u(c, n); o_s(c, ",\"field_pos\":"); o_u(c, fld->pos); o_s(c, ",\"field_width\":"); o_u(c, fld->width); o_s(c, "}"); o_end(c);
@@ -465,6 +481,10 @@ static void init_case(fm_t* m, uint32_t prior, int legacy, uint32_t arg, uint64_
         }
         vp_tr_bytes(c, p, n);
         fm_check(m, "init", name, round ? "second-call" : "first-call", n, arg, legacy && f->linit_argfield);
+        if (round == 0 && prior == 3 && g_samples && sample(c)) {
+            o_s(c, "{\"op\":\""); o_s(c, name); o_s(c, "\",\"format\":\""); o_s(c, f->id); o_s(c, "\",\"arg\":"); o_u(c, arg);
+            o_s(c, ",\"before\":\""); o_hex(c, m->before, n); o_s(c, "\",\"after\":\""); o_hex(c, p, n); o_s(c, "\",\"trailing_after\":\""); o_hex(c, p + n, 8); o_s(c, "\"}"); o_end(c);
+        }
     }
     if (differs) (*nontrivial)++;
 }
@@ -518,6 +538,11 @@ static void ba_run(fm_t* m, ba_call_t* e, const char* what, const char* idclass,
     c->evals++;
     (*nontrivial)++;
     const char* fname = e->fld ? e->fld->name : "-";
+    if (g_samples && (e->op == 1 || e->op == 5) && sample(c)) {
+        o_s(c, "{\"op\":\""); o_s(c, ba_opnames[e->op]); o_s(c, "\",\"format\":\""); o_s(c, f->id); o_s(c, "\",\"case\":\""); o_s(c, what); o_s(c, "\",\"id\":"); o_u(c, e->id);
+        o_s(c, ",\"pdu_null\":"); o_u(c, e->pdu == 0); o_s(c, ",\"result_null\":"); o_u(c, e->res == 0); o_s(c, ",\"signal\":"); o_u(c, (uint64_t)sig);
+        o_s(c, ",\"rc\":\""); if (e->rc < 0) { o_s(c, "-"); o_u(c, (uint64_t)(-(int64_t)e->rc)); } else o_u(c, (uint64_t)e->rc); o_s(c, "\",\"returned\":\""); o_x(c, e->out); o_s(c, "\"}"); o_end(c);
+    }
     if (sig) {
         if (vp_viol(c, "badargs", f->id, ba_opnames[e->op], what, "fault", 0)) {
             o_s(c, "{\"signal\":"); o_u(c, (uint64_t)sig); o_s(c, ",\"id\":"); o_u(c, e->id); o_s(c, ",\"idclass\":\""); o_s(c, idclass);
@@ -740,6 +765,10 @@ static void mode_legacy(fm_t* m, fm_t* m2, uint64_t* nontrivial)
             if (rc != 0 && vp_viol(c, "legacy", f->id, fld->name, "set", "rc", 0)) { o_s(c, "{\"rc\":"); o_u(c, (uint64_t)(int64_t)rc); o_s(c, "}"); o_end(c); }
             fm_check(m, "legacy", fld->name, "set", n, v, 1);
             fm_check(m2, "legacy", fld->name, "set-current", n, v, 1);
+            if (r == 7 && g_samples && sample(c)) {
+                o_s(c, "{\"op\":\"legacy-vs-current\",\"format\":\""); o_s(c, f->id); o_s(c, "\",\"field\":\""); o_s(c, fld->name); o_s(c, "\",\"legacy_get\":\""); o_x(c, lv);
+                o_s(c, "\",\"current_get\":\""); o_x(c, cv); o_s(c, "\",\"set_value\":\""); o_x(c, v); o_s(c, "\",\"legacy_bytes\":\""); o_hex(c, PDU(m), n); o_s(c, "\",\"current_bytes\":\""); o_hex(c, PDU(m2), n); o_s(c, "\"}"); o_end(c);
+            }
             if ((f->lvalbytes != 4 || v <= 0xffffffffull) && memcmp(PDU(m), PDU(m2), n) != 0 &&
                 vp_viol(c, "legacy", f->id, fld->name, "set", "differs-from-current", 0)) {
                 o_s(c, "{\"value\":\""); o_x(c, v); o_s(c, "\",\"legacy\":\""); o_hex(c, PDU(m), n); o_s(c, "\",\"current\":\""); o_hex(c, PDU(m2), n); o_s(c, "\"}"); o_end(c);
@@ -774,7 +803,8 @@ static void mode_views(fm_t* m, fm_t* m2, const char* filter, uint64_t* nontrivi
         const vp_share_t* sh = &vp_shares[si];
         const vp_format_t* A = vp_formats[sh->fa]; const vp_format_t* B = vp_formats[sh->fb];
         const vp_field_t* fa = &A->fields[sh->ia]; const vp_field_t* fb = &B->fields[sh->ib];
-        if (filter && strcmp(filter, "all") != 0 && strcmp(filter, A->id) != 0 && strcmp(filter, B->id) != 0) continue;
+        if (filter && strcmp(filter, "all") != 0 && strcmp(filter, A->id) != 0) continue;
+        g_samples = (si % 7 == 0) ? 1 : 0;
         size_t n = A->spec_bytes > B->spec_bytes ? A->spec_bytes : B->spec_bytes;
         char pairname[96]; size_t pn = 0;
         { const char* parts[] = { A->id, ".", fa->name, "=", B->id, ".", fb->name };
@@ -805,6 +835,10 @@ static void mode_views(fm_t* m, fm_t* m2, const char* filter, uint64_t* nontrivi
                     vp_tr_bytes(c, PDU(m), n);
                     if (memcmp(PDU(m), PDU(m2), n) != 0 && vp_viol(c, "views", pairname, path_names[pa], path_names[pb], "write-differs", 0)) {
                         o_s(c, "{\"value\":\""); o_x(c, v); o_s(c, "\",\"via_a\":\""); o_hex(c, PDU(m), n); o_s(c, "\",\"via_b\":\""); o_hex(c, PDU(m2), n); o_s(c, "\"}"); o_end(c);
+                    }
+                    if (r == 7 && g_samples && sample(c)) {
+                        o_s(c, "{\"op\":\"views\",\"pair\":\""); o_s(c, pairname); o_s(c, "\",\"paths\":\""); o_s(c, path_names[pa]); o_s(c, "/"); o_s(c, path_names[pb]);
+                        o_s(c, "\",\"read_a\":\""); o_x(c, va); o_s(c, "\",\"read_b\":\""); o_x(c, vb); o_s(c, "\",\"written\":\""); o_x(c, v); o_s(c, "\",\"bytes_via_a\":\""); o_hex(c, PDU(m), n); o_s(c, "\",\"bytes_via_b\":\""); o_hex(c, PDU(m2), n); o_s(c, "\"}"); o_end(c);
                     }
                     fm_check(m, "views", pairname, "write-a", A->spec_bytes, v, 1);
                     fm_check(m2, "views", pairname, "write-b", B->spec_bytes, v, 1);
@@ -967,18 +1001,18 @@ static void mode_history(vp_ctx_t* c, const char* filter, uint64_t* nontrivial)
         if (n0 < 256) {
             const vp_format_t* f = slot[0].f;
             solo.f = f;
-            c->quiet++;   /* the replay repeats oracle checks already made; only the comparison counts */
             fm_load(&solo, init0, hdr_len(f));
-            c->quiet--;
-            uint64_t saved_v = c->nviol;
             for (uint32_t o = 0; o < n0; o++) h_apply(&solo, &log0[o]);
-            (void)saved_v;
             c->evals++;
             if (memcmp(PDU(&solo), PDU(&slot[0]), hdr_len(f)) != 0 && vp_viol(c, "history", f->id, "isolation-replay", "bytes-differ", 0, 0)) {
                 o_s(c, "{\"interleaved\":\""); o_hex(c, PDU(&slot[0]), hdr_len(f)); o_s(c, "\",\"alone\":\""); o_hex(c, PDU(&solo), hdr_len(f)); o_s(c, "\"}"); o_end(c);
             }
         }
         if (hset_add(hh)) distinct++;
+        if (ep < 2 && (g_samples = 1) && sample(c)) {
+            o_s(c, "{\"op\":\"history-episode\",\"buffers\":"); o_u(c, k); o_s(c, ",\"ops\":"); o_u(c, nops); o_s(c, ",\"slot0_format\":\""); o_s(c, slot[0].f->id);
+            o_s(c, "\",\"slot0_ops\":"); o_u(c, n0); o_s(c, ",\"slot0_final\":\""); o_hex(c, PDU(&slot[0]), hdr_len(slot[0].f)); o_s(c, "\",\"history_hash\":\""); o_x(c, hh); o_s(c, "\"}"); o_end(c);
+        }
     }
     *nontrivial += distinct;
     vp_stat(c, "history.episodes", episodes);
@@ -1071,6 +1105,7 @@ int main(void)
             if (!match_format(formats, f->id)) continue;
             m.f = f;
             uint64_t e0 = c->evals, nt0 = nontrivial;
+            g_samples = (uint32_t)vp_cfg_u64("SAMPLES", 2);
             /* per-format PRNG stream so that results do not depend on which formats share a process */
             vp_rng_seed(&c->rng, seed, 0x2000 + fx * 16 + (uint64_t)mode[0]);
             vp_arena_fill(&m.a, &c->rng); vp_arena_fill(&m2.a, &c->rng);
